@@ -28,6 +28,24 @@ Definition decide (limit interrupted finished alive : bool) : action :=
 
 Definition kills (a : action) : bool := match a with AKillRaise | AKillTimeout => true | _ => false end.
 
+(** limits of ten minutes and more: _join_with_keep_alive waits in slices of at most 600 s.  [run] is the time at
+    which the process ends by itself, [elapsed] the time waited so far; a join returns early when the process ends.
+    Returns the time waited in total and the slices asked for. *)
+Local Open Scope Z_scope.
+Definition slice_len (limit elapsed : Z) : Z := if 600 <? limit - elapsed then 600 else limit - elapsed.
+Fixpoint join_loop (fuel : nat) (limit run elapsed : Z) : Z * list Z :=
+  match fuel with
+  | O => (elapsed, [])
+  | S f =>
+      if limit <=? elapsed then (elapsed, [])
+      else
+        let sl := slice_len limit elapsed in
+        let e' := if run <=? elapsed + sl then Z.max elapsed run else elapsed + sl in
+        if run <=? e' then (e', [sl])
+        else let '(r, l) := join_loop f limit run e' in (r, sl :: l)
+  end.
+Local Close Scope Z_scope.
+
 Definition sx_action (a : action) : sx :=
   I (match a with AKillRaise => 0 | AKillTimeout => 1 | ARaise => 2 | AReturn => 3 end)%Z.
 Definition forest_of (edges : list (nat * list nat)) : forest :=
